@@ -340,6 +340,19 @@ func catalogue() []SItem {
 			{Tag: "mirror", Kind: "edit:loop-form", Body: "i, c := 0, 0\n\tfor i < n {\n\t\tuse(i)\n\t\tc++\n\t\tif i%3 == 0 {\n\t\t\ti += 2\n\t\t\tcontinue\n\t\t}\n\t\ti++\n\t}\n\treturn c"},
 			{Tag: "down", Kind: "edit:loop-direction", Body: "i, c := n, 0\n\tfor i > 0 {\n\t\tuse(i)\n\t\tc++\n\t\tif i%2 == 0 {\n\t\t\ti -= 3\n\t\t} else {\n\t\t\ti--\n\t\t\tcontinue\n\t\t}\n\t}\n\treturn c"},
 		}})
+	// loop headers entered over several outside edges with different values (the variable is
+	// conditionally reassigned right before a loop without init statement; go/ssa threads the empty
+	// merge block away, so the header phi has two entry operands)
+	add(SItem{Group: "L", Par: P("n int, c bool"), Ret: R("int"), Unwind: 10,
+		Body: "s := 0\n\ti := 0\n\tif c {\n\t\ti = 5\n\t}\n\tfor ; i < n; i++ {\n\t\ts += i\n\t\tuse(i)\n\t}\n\treturn s",
+		Vars: []SVar{
+			{Tag: "three", Kind: "edit:smallint", Body: "s := 0\n\ti := 0\n\tif c {\n\t\ti = 3\n\t}\n\tfor ; i < n; i++ {\n\t\ts += i\n\t\tuse(i)\n\t}\n\treturn s"},
+		}})
+	add(SItem{Group: "L", Par: P("n int, c bool"), Ret: R("int"), Unwind: 10,
+		Body: "s := 0\n\ti := n\n\tif c {\n\t\ti = n - 4\n\t}\n\tfor ; i > 0; i-- {\n\t\ts += i\n\t\tuse(i)\n\t}\n\treturn s",
+		Vars: []SVar{
+			{Tag: "swap", Kind: "edit:condition", Body: "s := 0\n\ti := n\n\tif !c {\n\t\ti = n - 4\n\t}\n\tfor ; i > 0; i-- {\n\t\ts += i\n\t\tuse(i)\n\t}\n\treturn s"},
+		}})
 
 	// ---------------------------------------------------------------- S: slices, strings, structs
 	add(SItem{Group: "S", Par: P("a []int"), Ret: R("int"), Body: "if len(a) < 3 {\n\t\treturn 0\n\t}\n\treturn a[1] - a[2]",
